@@ -334,14 +334,39 @@ impl<F: PathFetcher> VerifPathSet<F> {
     /// notifications still queued for this path set had been ingested at `now` (what
     /// `drain_and_apply_issue_channel` does inside a refetch); the cache is not modified.
     pub fn cache(&self, now: SystemTime, after_pending: bool) -> Vec<VerifCacheEntry> {
+        self.cache_view(now, after_pending, &[])
+    }
+
+    /// Like [`Self::cache`] with `after_pending`, but as seen inside a refetch that returned
+    /// `fetched`: cached paths are first refreshed with the policy-conforming fetched path of the
+    /// same fingerprint (the last one wins), as `update_path_cache` does before it drains the
+    /// issue channel. The cache is not modified.
+    pub fn cache_after_fetch(
+        &self,
+        now: SystemTime,
+        fetched: &[ScionPath],
+    ) -> Vec<VerifCacheEntry> {
+        self.cache_view(now, true, fetched)
+    }
+
+    fn cache_view(
+        &self,
+        now: SystemTime,
+        after_pending: bool,
+        fetched: &[ScionPath],
+    ) -> Vec<VerifCacheEntry> {
         let mut copies: Vec<PathManagerPath> = self
             .set
             .internal
             .cached_paths
             .iter()
             .map(|e| {
+                let refreshed = fetched
+                    .iter()
+                    .rev()
+                    .find(|f| f.fingerprint() == e.path.fingerprint() && self.predicate(f));
                 PathManagerPath {
-                    path: e.path.clone(),
+                    path: refreshed.unwrap_or(&e.path).clone(),
                     reliability: e.reliability.clone(),
                 }
             })
